@@ -3,7 +3,7 @@
 
 use crate::absdoc::{self, GenCfg, ATTR_VALUES, COMMENTS, LOCALS, PI_DATA, PI_TARGETS, PREFIXES, TEXTS, URIS};
 use crate::model::{Lid, Model, Nm, K};
-use crate::ops::{EntryMode, Op, ParseKind};
+use crate::ops::{ViewStep, EntryMode, Op, ParseKind};
 use crate::rng::Rng;
 use serde::{Deserialize, Serialize};
 
@@ -86,9 +86,14 @@ pub fn gen_name(rng: &mut Rng) -> Nm {
     let uri = if rng.pct(40) { rng.pick(&URIS).to_string() } else { String::new() };
     Nm { local: rng.pick(&LOCALS).to_string(), uri }
 }
+/// strings in which no byte offset other than 0 (resp. 1) and the end is certain to be a character
+/// boundary: code that slices at a fixed byte offset shows
+pub const STRADDLING: [&str; 3] = ["\u{e9}\u{e9}\u{e9}\u{e9}\u{e9}\u{e9}\u{e9}\u{e9}\u{e9}\u{e9}\u{e9}\u{e9}\u{e9}\u{e9}\u{e9}\u{e9}\u{e9}\u{e9}\u{e9}\u{e9}\u{e9}\u{e9}\u{e9}\u{e9}\u{e9}\u{e9}\u{e9}\u{e9}\u{e9}\u{e9}\u{e9}\u{e9}\u{e9}\u{e9}\u{e9}\u{e9}\u{e9}\u{e9}\u{e9}\u{e9}", "a\u{e9}\u{e9}\u{e9}\u{e9}\u{e9}\u{e9}\u{e9}\u{e9}\u{e9}\u{e9}\u{e9}\u{e9}\u{e9}\u{e9}\u{e9}\u{e9}\u{e9}\u{e9}\u{e9}\u{e9}\u{e9}\u{e9}\u{e9}\u{e9}\u{e9}\u{e9}\u{e9}\u{e9}\u{e9}\u{e9}\u{e9}\u{e9}\u{e9}\u{e9}\u{e9}\u{e9}\u{e9}\u{e9}\u{e9}\u{e9}", "\u{1F600}\u{1F600}\u{1F600}\u{1F600}\u{1F600}\u{1F600}\u{1F600}\u{1F600}\u{1F600}\u{1F600}\u{1F600}\u{1F600}\u{1F600}\u{1F600}\u{1F600}\u{1F600}\u{1F600}\u{1F600}"];
 pub fn gen_text(rng: &mut Rng) -> String {
     if rng.pct(5) {
         String::new()
+    } else if rng.pct(4) {
+        rng.pick_str(&STRADDLING).to_string()
     } else {
         rng.pick(&TEXTS).to_string()
     }
@@ -105,10 +110,24 @@ fn gen_prefix(rng: &mut Rng) -> String {
 /// a processing-instruction target; now and then one in a namespace (cannot be serialised:
 /// serialisation has to refuse it), which C10's profile of representable content leaves out
 fn pi_target(rng: &mut Rng, prof: &Profile) -> Nm {
+    if !prof.representable_ns_only && rng.pct(2) {
+        // a reserved target: the API takes it, XML cannot express it
+        return Nm::new(rng.pick_str(&["XML", "xml", "XmL"]), "");
+    }
     if !prof.representable_ns_only && rng.pct(3) {
         Nm::new(rng.pick_str(&PI_TARGETS), rng.pick_str(&URIS))
     } else {
         Nm::new(rng.pick_str(&PI_TARGETS), "")
+    }
+}
+/// data of a processing instruction; now and then the empty string, which is not the same as no data
+fn pi_data(rng: &mut Rng, prof: &Profile) -> Option<String> {
+    if !prof.representable_ns_only && rng.pct(6) {
+        Some(String::new())
+    } else if rng.pct(60) {
+        Some(rng.pick(&PI_DATA).to_string())
+    } else {
+        None
     }
 }
 fn gen_uri(rng: &mut Rng) -> String {
@@ -197,6 +216,23 @@ fn pick_move_pair(p: &Picker, rng: &mut Rng, sibling_ref: bool) -> Option<(Lid, 
 }
 
 pub fn gen_xml_text(rng: &mut Rng, fragment: bool) -> String {
+    if !fragment && rng.pct(2) {
+        // a deep, narrow document: more open elements than fit a machine word of flags, a byte of depth, ...
+        let depth = *rng.pick(&[33usize, 65, 70, 130, 260]);
+        let u = rng.pick_str(&URIS);
+        let mut esc = String::new();
+        absdoc::esc_attr(u, &mut esc);
+        let mut s = format!("<r><e xmlns:p=\"{}\" xmlns=\"{}\">", esc, esc);
+        for i in 0..depth {
+            s.push_str(if i % 7 == 3 { "<p:d>" } else { "<d>" });
+        }
+        s.push_str("t");
+        for i in (0..depth).rev() {
+            s.push_str(if i % 7 == 3 { "</p:d>" } else { "</d>" });
+        }
+        s.push_str("</e><f/></r>");
+        return s;
+    }
     let cfg = GenCfg::swarm(rng);
     let d = absdoc::gen_doc(rng, &cfg);
     let mut coin = rng.fork();
@@ -301,6 +337,41 @@ pub fn scope_bound_uris(m: &Model, e: Lid) -> Vec<String> {
 /// a nested element, repair that element; or the same with a subtree moved away in between
 pub fn gen_motif(m: &Model, rng: &mut Rng, home: &[Lid]) -> Option<Vec<Op>> {
     let p = Picker::new(m, home, 50);
+    if rng.pct(40) {
+        // a deep, narrow tree is around: something in a namespace that only the element above the
+        // deep part declares is added after that element, then the whole tree is repaired
+        let depth = |l: Lid| {
+            let mut d = 0usize;
+            let mut cur = m.n(l).parent;
+            while let Some(c) = cur {
+                d += 1;
+                cur = m.n(c).parent;
+            }
+            d
+        };
+        if let Some(deep) = p.live.iter().copied().find(|l| m.k(*l) == K::Elem && depth(*l) > 66) {
+            // the ancestor two levels below the root of that tree, and its parent
+            let mut chain = vec![deep];
+            let mut cur = m.n(deep).parent;
+            while let Some(c) = cur {
+                chain.push(c);
+                cur = m.n(c).parent;
+            }
+            let n = chain.len();
+            if n >= 4 {
+                let (top, holder) = (chain[n - 3], chain[n - 2]);
+                let uris: Vec<String> = m.n(top).ns.iter().filter_map(|d| if let crate::model::Kind::Ns(_, u) = &m.n(*d).kind { Some(u.clone()) } else { None }).filter(|u| !u.is_empty()).collect();
+                if let Some(u) = rng.pick_opt(&uris) {
+                    if m.k(holder) == K::Elem {
+                        return Some(vec![
+                            Op::AppendElement { p: holder, name: Nm::new(rng.pick_str(&LOCALS), u) },
+                            Op::CreateMissingPrefixes { n: m.root_of(deep) },
+                        ]);
+                    }
+                }
+            }
+        }
+    }
     if rng.pct(30) {
         // an element whose only declaration is the (legal, redundant) built-in pair, with content
         // after it that depends on the scope around it; then the tree is repaired and written
@@ -452,10 +523,10 @@ fn try_gen_op(m: &Model, rng: &mut Rng, prof: &Profile, home: &[Lid]) -> Option<
             0 => Op::NewDocument,
             1 | 2 | 3 => Op::NewElement { name: gen_name(rng) },
             4 | 5 => Op::NewText { s: gen_text(rng) },
-            6 => Op::NewComment { s: if rng.pct(8) && !prof.representable_ns_only { "a--b".to_string() } else { rng.pick(&COMMENTS).to_string() } },
+            6 => Op::NewComment { s: if rng.pct(8) && !prof.representable_ns_only { "a--b".to_string() } else if rng.pct(6) { rng.pick_str(&STRADDLING).to_string() } else { rng.pick(&COMMENTS).to_string() } },
             7 => Op::NewPI {
                 target: pi_target(rng, prof),
-                data: if rng.pct(60) { Some(rng.pick(&PI_DATA).to_string()) } else { None },
+                data: pi_data(rng, prof),
             },
             8 => Op::NewAttr { name: gen_name(rng), value: rng.pick_str(&ATTR_VALUES[..8]).to_string() },
             _ => {
@@ -609,10 +680,14 @@ fn try_gen_op(m: &Model, rng: &mut Rng, prof: &Profile, home: &[Lid]) -> Option<
             if m.subtree(n).len() + n_live > prof.max_nodes + 20 {
                 return None;
             }
-            if rng.pct(25) {
+            if rng.pct(40) {
                 // a nested element whose ancestors declare something: the case clone_with_prefixes is for
+                // (half of the time one with several element children: names that recur in the subtree)
+                let several = rng.pct(50);
                 if let Some(e) = p.of(rng, |l| {
-                    m.k(l) == K::Elem && m.n(l).parent.map(|a| !scope_bound_uris(m, a).is_empty()).unwrap_or(false)
+                    m.k(l) == K::Elem
+                        && m.n(l).parent.map(|a| !scope_bound_uris(m, a).is_empty()).unwrap_or(false)
+                        && (!several || m.n(l).kids.iter().filter(|k| m.k(**k) == K::Elem).count() >= 2)
                 }) {
                     return Some(Op::CloneWithPrefixes { n: e });
                 }
@@ -636,17 +711,30 @@ fn try_gen_op(m: &Model, rng: &mut Rng, prof: &Profile, home: &[Lid]) -> Option<
                 // (leading / trailing / doubled spaces: an xml:id with such a value does not survive
                 // a reparse, so C10's profile leaves them out)
                 let value = if rng.pct(10) && !prof.representable_ns_only { rng.pick_str(&[" v", "v ", "a  b", " a  b "]).to_string() } else { rng.pick_str(&ATTR_VALUES[..8]).to_string() };
+                let value = if rng.pct(3) { rng.pick_str(&STRADDLING).to_string() } else { value };
                 let value = match same_value {
                     Some(v) if rng.pct(20) => v,
                     _ => value,
                 };
                 if rng.pct(12) {
                     // 2-4 updates through one view object; biased to keys that exist, then new ones
-                    let mut items = vec![(name, if rng.pct(80) { Some(value) } else { None })];
-                    for _ in 0..rng.range(1, 3) {
-                        let k = attr_key(m, e, rng);
-                        let v = if rng.pct(75) { Some(rng.pick_str(&ATTR_VALUES[..8]).to_string()) } else { None };
-                        items.push((k, v));
+                    // 2-5 calls through one view object; keys that exist are preferred, so that updates,
+                    // look-ups before and after a removal or a clear, and re-insertions occur
+                    let mut items = vec![if rng.pct(80) { ViewStep::Insert(name.clone(), value) } else { ViewStep::Get(name.clone()) }];
+                    for _ in 0..rng.range(1, 4) {
+                        let k = if rng.pct(40) { name.clone() } else { attr_key(m, e, rng) };
+                        let step = match rng.below(100) {
+                            0..=49 => ViewStep::Insert(k, rng.pick_str(&ATTR_VALUES[..8]).to_string()),
+                            50..=69 => ViewStep::Remove(k),
+                            70..=79 => {
+                                // after a clear the same view is used on: the key comes back, twice
+                                items.push(ViewStep::Clear);
+                                items.push(ViewStep::Insert(k.clone(), rng.pick_str(&ATTR_VALUES[..8]).to_string()));
+                                ViewStep::Insert(k, rng.pick_str(&ATTR_VALUES[..8]).to_string())
+                            }
+                            _ => ViewStep::Get(k),
+                        };
+                        items.push(step);
                     }
                     return Some(Op::AttrBatch { e, items });
                 }
@@ -673,11 +761,20 @@ fn try_gen_op(m: &Model, rng: &mut Rng, prof: &Profile, home: &[Lid]) -> Option<
                     uri = absdoc::XML_NS.into();
                 }
                 if rng.pct(12) {
-                    let mut items = vec![(prefix, if rng.pct(80) { Some(uri) } else { None })];
-                    for _ in 0..rng.range(1, 3) {
-                        let k = ns_key(m, e, rng);
-                        let v = if rng.pct(75) { Some(rng.pick(&URIS).to_string()) } else { None };
-                        items.push((k, v));
+                    let mut items = vec![if rng.pct(80) { ViewStep::Insert(prefix.clone(), uri) } else { ViewStep::Get(prefix.clone()) }];
+                    for _ in 0..rng.range(1, 4) {
+                        let k = if rng.pct(40) { prefix.clone() } else { ns_key(m, e, rng) };
+                        let step = match rng.below(100) {
+                            0..=49 => ViewStep::Insert(k, rng.pick(&URIS).to_string()),
+                            50..=69 => ViewStep::Remove(k),
+                            70..=79 => {
+                                items.push(ViewStep::Clear);
+                                items.push(ViewStep::Insert(k.clone(), rng.pick(&URIS).to_string()));
+                                ViewStep::Insert(k, rng.pick(&URIS).to_string())
+                            }
+                            _ => ViewStep::Get(k),
+                        };
+                        items.push(step);
                     }
                     return Some(Op::NsBatch { e, items });
                 }
@@ -784,7 +881,7 @@ fn try_gen_op(m: &Model, rng: &mut Rng, prof: &Profile, home: &[Lid]) -> Option<
                 _ => Op::AppendPI {
                     p: pn,
                     target: pi_target(rng, prof),
-                    data: if rng.pct(60) { Some(rng.pick(&PI_DATA).to_string()) } else { None },
+                    data: pi_data(rng, prof),
                 },
             })
         }
